@@ -259,7 +259,17 @@ func run() int {
 	mod := filepath.Join(work, "mod")
 	os.MkdirAll(mod, 0o755)
 
+	// VERIF_CRASHLOG: the index of the line being compiled is appended to this file before the
+	// compiler is called, so that after a fatal error of the process (a stack overflow is not
+	// recoverable) the runner knows which line killed it
+	crashLog := os.Getenv("VERIF_CRASHLOG")
 	for i, line := range raw {
+		if crashLog != "" {
+			if f, err := os.OpenFile(crashLog, os.O_APPEND|os.O_CREATE|os.O_WRONLY, 0o644); err == nil {
+				fmt.Fprintf(f, "%d\n", i)
+				f.Close()
+			}
+		}
 		f := strings.SplitN(line, " ", 3)
 		j := &job{}
 		jobs = append(jobs, j)
